@@ -82,6 +82,23 @@ __attribute__((noinline)) void launch(tulz::Thread &t, Kind k, int &a, std::stri
     }
 }
 
+// ---- race pass (tsan flavour): "isFinished() becomes true only after the callable has returned" must hold as a happens-before relation: a starter that has seen
+// isFinished() == true (or isRunning() == false) reads what the callable wrote, without joining first.  Plain data only: ThreadSanitizer judges every enumerated schedule.
+int g_plain_result, g_plain_destroyed;
+void fn_plain() { vs_point(5); g_plain_result = 42; }
+struct PlainJob : tulz::Runnable { void run() override { vs_point(5); g_plain_result = 43; } ~PlainJob() override { g_plain_destroyed = 1; } };
+void run_plain(bool runnable) {
+    g_plain_result = 0; g_plain_destroyed = 0;
+    tulz::Thread t;
+    if (runnable) t.start(new PlainJob()); else t.start(fn_plain);
+    vs_point(6);
+    if (t.isFinished()) { if (g_plain_result != (runnable ? 43 : 42)) vs_fail("isFinished() returned true but the callable's result is not there"); if (runnable && !g_plain_destroyed) vs_fail("isFinished() returned true before the Runnable was destroyed"); }
+    vs_point(6);
+    if (!t.isRunning()) { if (g_plain_result != (runnable ? 43 : 42)) vs_fail("isRunning() returned false but the callable's result is not there"); }
+    t.join();
+    if (g_plain_result != (runnable ? 43 : 42)) vs_fail("join() returned but the callable's result is not there");
+}
+
 void observe(tulz::Thread &t, int which) {
     bool fin = t.isFinished();
     vs_event(EV_OBS, which, fin);
@@ -124,10 +141,18 @@ std::string ev_name(const vs_ev &e) {
     return "";
 }
 
-bool provider(const std::string &prop, const std::string &tier, const std::string &, VSuite &suite) {
+bool provider(const std::string &prop, const std::string &tier, const std::string &flavour, VSuite &suite) {
     if (prop != "C20") return false;
     (void)tier;
     suite.event_name = ev_name;
+    if (flavour == "tsan") {
+        suite.rule = "every schedule of the starting thread and the started thread, executed under ThreadSanitizer with an uninstrumented scheduler: a starter that has observed isFinished() == true or isRunning() == false reads the plain data the callable wrote (and the "
+                     "Runnable's destructor wrote) without joining first; any data-race report is a violation - the completion flag must order the callable before the observer";
+        suite.assumptions = {"ThreadSanitizer's happens-before model of the C++ memory orders (a relaxed load of the flag does not order anything)"};
+        suite.relevant = [](int o, const std::string &, const std::string &) { return o == VS_OUT_RACE || o == VS_OUT_ORACLE || o == VS_OUT_CRASH; };
+        for (bool r : {false, true}) { VProgram p; p.name = r ? "flag-orders-runnable" : "flag-orders-fnptr"; p.describe = std::string("start(") + (r ? "Runnable*" : "function pointer") + "); the starter polls isFinished()/isRunning() and reads the result without join()"; p.bound = 4; p.unlock_points = true; p.body = [r] { run_plain(r); }; suite.programs.push_back(std::move(p)); }
+        return true;
+    }
     suite.rule = "every schedule (all of them: the bound exceeds the number of possible preemptions) of the starting thread and the started thread, for each callable kind; "
                  "the starter returns from start(), overwrites its dead stack frames, observes isFinished() twice and joins; non-trivial = some thread blocked";
     suite.assumptions = {"arguments passed to start() are lvalues that outlive the thread (as the property states)", "sequential consistency at scheduling-point granularity"};
